@@ -236,12 +236,14 @@ func (p *HTTPProxy) ServeHTTP(w http.ResponseWriter, r *http.Request) {
 	switch {
 	case upgrade == "websocket" || upgrade == "Websocket":
 		r.URL = targetURL
+		// connect with the configured limits like the transports do
+		dialer := &net.Dialer{Timeout: p.Config.DialTimeout, KeepAlive: p.Config.KeepAliveTimeout}
 		if targetURL.Scheme == "https" || targetURL.Scheme == "wss" {
 			h = newWSHandler(targetURL.Host, func(network, address string) (net.Conn, error) {
-				return tls.Dial(network, address, tr.(*http.Transport).TLSClientConfig)
+				return tls.DialWithDialer(dialer, network, address, tr.(*http.Transport).TLSClientConfig)
 			}, p.Stats.WSConn)
 		} else {
-			h = newWSHandler(targetURL.Host, net.Dial, p.Stats.WSConn)
+			h = newWSHandler(targetURL.Host, dialer.Dial, p.Stats.WSConn)
 		}
 
 	case accept == "text/event-stream":
